@@ -188,7 +188,10 @@ def check_post(uses, regex_name, pat, flags):
             one_line = probe.replace('\\\n', ' ')
             ref = [m.group(0) for m in rx.finditer(one_line)]
             if not ref or not all(any(n in g for g in ref) for n in needles):
-                raise AnalysisError('%s does not match the single-line spelling %r' % (regex_name, one_line))
+                # the pattern does not even find the statement written on one line: that is a defect of the pattern for this statement
+                # shape, decided (and reported) by C46-SCANBODY; the continuation probe has nothing to compare with
+                out.append((kind, 'unmatched', c.lineno))
+                continue
             t = apply_post(steps or (), probe)
             if t is None:
                 out.append((kind, None, c.lineno))
@@ -214,9 +217,11 @@ def rule_pipe(ctx):
         else:
             r.violate('Dependencies.parse_dependencies:' + key, REL, line, msg)
     for kind, ok, line in check_post(uses, 'dependency_regex', pat, flags):
-        r.inst('parse_dependencies:continuation:' + kind, sample='%s statement with a backslash continuation is %s' % (kind, {True: 'found', False: 'MISSED', None: 'not modelled'}[ok]),
-               nontrivial=ok is not None)
-        if ok is None:
+        r.inst('parse_dependencies:continuation:' + kind, sample='%s statement with a backslash continuation is %s' % (kind, {True: 'found', False: 'MISSED', None: 'not modelled', 'unmatched': 'not comparable'}[ok]),
+               nontrivial=ok in (True, False))
+        if ok == 'unmatched':
+            r.info('dependency_regex does not match the one-line spelling of the %s probe; the statement shape is decided by C46-SCANBODY, continuation probe skipped' % kind)
+        elif ok is None:
             r.info('parse_dependencies: a pass between %s and dependency_regex is not a constant str.replace; continuation probe %s skipped' % (STRIPPER, kind))
         elif not ok:
             r.violate('Dependencies.parse_dependencies:continuation:' + kind, REL, line,
@@ -227,7 +232,509 @@ def rule_pipe(ctx):
                    "    source, literals = strip_string_literals(source)\n    for m in dependency_regex.finditer(source):\n        pass\n").body[0]
     _, p2, u2 = check_pre(pc, names)
     post2 = check_post(u2, 'dependency_regex', pat, flags)
+    # probes whose one-line spelling the pattern under analysis does not match are not comparable (decided by C46-SCANBODY)
+    post3 = check_post([(c, n, tuple(x for x in st if x[0] != 'replace')) for c, n, st in u2], 'dependency_regex', pat, flags)
     r.positive_control({k for k, _, _ in p2} == {'pre-strip:replace:backslash+newline', 'pre-strip:replace:tab'} and all(ok for _, ok, _ in post2) and
-                       not any(ok for _, ok, _ in check_post([(c, n, tuple(x for x in st if x[0] != 'replace')) for c, n, st in u2], 'dependency_regex', pat, flags)),
+                       not any(ok is True for _, ok, _ in post3) and any(ok is False for _, ok, _ in post3),
                        'joins before the stripping; no join at all: %s' % sorted(k for k, _, _ in p2))
+    return r
+
+
+# ======================================================================================================================
+#  fourth round: rules that evaluate small pure functions of the build machinery over complete finite domains
+#  (checker-owned evaluator sC50.PyEval: the AST is interpreted, nothing from the repository is imported or run)
+# ======================================================================================================================
+import os as _os
+import types as _types
+import importlib.util as _ilu
+
+from .sC50 import PyEval, EvalError, PyRaise, Opaque, Func, Obj
+
+_NS = _types.SimpleNamespace
+_RE_STUB = _NS(compile=re.compile, sub=re.sub, MULTILINE=re.MULTILINE, VERBOSE=re.VERBOSE, M=re.M, X=re.X, S=re.S, DOTALL=re.DOTALL, I=re.I, IGNORECASE=re.IGNORECASE,
+               escape=re.escape, match=re.match, search=re.search, findall=re.findall)
+_OS_STUB = _NS(path=_NS(splitext=_os.path.splitext, dirname=_os.path.dirname, basename=_os.path.basename, join=_os.path.join, normpath=_os.path.normpath,
+                        sep='/', isabs=_os.path.isabs), getcwd=lambda: '/cwd', sep='/')
+
+
+def _guard(desc, thunk):
+    try:
+        return thunk()
+    except EvalError as e:
+        raise AnalysisError('%s: outside the fragment the evaluator models (%s)' % (desc, e))
+    except RecursionError:
+        raise AnalysisError('%s: recursion too deep for the evaluator' % desc)
+
+
+def deps_model(ctx, tree=None):
+    """Dependencies.py loaded into a PyEval instance with the memo decorators as identity (memo transparency is C46-MEMO / C46-ALIAS)"""
+    def build():
+        ev = PyEval(max_steps=4000000, decorators={'cached_function': 'identity', 'cached_method': 'identity'})
+        cy = _NS(compiled=False, declare=lambda t=None, v=None, **k: v)
+        mod = ev.load_module('Dependencies', tree if tree is not None else _tree(ctx), imports={'cython': cy, 're': _RE_STUB, 'os': _OS_STUB})
+        return ev, mod
+    return build() if tree is not None else ctx.memo('sC46.deps_model', build)
+
+
+# ---------------------------------------------------------------------------------------------------------------- MEMO
+MEMO_TEST_CLASS = '''
+class T:
+    def __init__(self, tag):
+        self.tag = tag
+    @cached_method
+    def a(self, x, y=0):
+        return ('a', self.tag, x, y)
+    @cached_method
+    def b(self, x, y=0):
+        return ('b', self.tag, x, y)
+'''
+# identity of a call = (instance, method, first argument, second argument, arity); every pair below differs in exactly one component
+MEMO_PAIRS = [
+    ('method', ('t1', 'a', (1, 2)), ('t1', 'b', (1, 2))),
+    ('instance', ('t1', 'a', (1, 2)), ('t2', 'a', (1, 2))),
+    ('first argument', ('t1', 'a', (1, 2)), ('t1', 'a', (3, 2))),
+    ('second argument', ('t1', 'a', (1, 2)), ('t1', 'a', (1, 3))),
+    ('argument order', ('t1', 'a', (1, 2)), ('t1', 'a', (2, 1))),
+    ('arity', ('t1', 'a', (1,)), ('t1', 'a', (1, 2))),
+    ('nothing (same call twice)', ('t1', 'a', (1, 2)), ('t1', 'a', (1, 2))),
+]
+
+
+def memo_outcomes(ctx, utils_tree):
+    ev = PyEval(max_steps=200000, decorators={'wraps': 'identity', 'functools.wraps': 'identity'})       # functools.wraps only copies metadata
+    um = ev.load_module('Utils', utils_tree, imports={'re': _RE_STUB, 'os': _OS_STUB})
+    cm = um.vars.get('cached_method')
+    if not isinstance(cm, Func):
+        raise AnalysisError('Utils.cached_method could not be established by the evaluator%s' % ((' (%s)' % cm.why) if isinstance(cm, Opaque) else ''))
+    out = []
+    for what, c1, c2 in MEMO_PAIRS:
+        ev.decorators = {'cached_method': cm, 'wraps': 'identity', 'functools.wraps': 'identity'}
+        tm = ev.load_module('memo_test', ast.parse(MEMO_TEST_CLASS), presets={'cached_method': cm})
+        T = tm.vars['T']
+        if isinstance(T, Opaque):
+            raise EvalError(T.why)
+        objs = {'t1': ev.call(T, ['t1']), 't2': ev.call(T, ['t2'])}
+
+        def do(c):
+            inst, meth, args = c
+            return ev.call(ev.getattr(objs[inst], meth), list(args))
+
+        def pure(c):
+            inst, meth, args = c
+            return (meth, inst, args[0], args[1] if len(args) > 1 else 0)
+        try:
+            r1, r2 = do(c1), do(c2)
+        except PyRaise as e:
+            r1, r2 = 'raises %r' % (e.exc,), None
+        out.append((what, c1, c2, r1, r2, pure(c1), pure(c2)))
+    return out
+
+
+def rule_memo(ctx):
+    r = Rule('C46-MEMO', 'Utils.cached_method is transparent: two calls that differ in the instance, the method, any argument, the argument order or the arity never share a '
+             'memo entry, and the second of two identical calls returns the same value (the decorator is evaluated by the checker on a two-method class for every component '
+             'in which two calls can differ)', floor=7)
+    urel = 'Cython/Utils.py'
+    ut = ctx.parse(urel)
+    fn = tables.find_function(ut, 'cached_method')
+    rows = _guard('Utils.cached_method', lambda: memo_outcomes(ctx, ut))
+    for what, c1, c2, r1, r2, p1, p2 in rows:
+        key = 'Utils.cached_method:distinguishes:%s' % what.split(' (')[0].replace(' ', '-')
+        r.inst(key, sample='%s.%s%r then %s.%s%r -> %r, %r' % (c1[0], c1[1], c1[2], c2[0], c2[1], c2[2], r1, r2))
+        if r1 != p1 or r2 != p2:
+            r.violate(key, urel, fn.lineno,
+                      'with @cached_method, %s.%s%r followed by %s.%s%r (the calls differ in: %s) returns %r and %r instead of %r and %r: a DependencyTree query is answered with the '
+                      'memoised result of another query (e.g. find_pxd(module, file) for a relative cimport of another package, included_files(f) with the value of cimported_files(f)), '
+                      'so the dependency set of a module is wrong' % (c1[0], c1[1], c1[2], c2[0], c2[1], c2[2], what, r1, r2, p1, p2))
+    # positive control: one cache attribute for all methods
+    pc = ast.parse("def cached_method(f):\n    def wrapper(self, *args):\n        cache = getattr(self, '_cache', None)\n        if cache is None:\n            cache = {}\n            setattr(self, '_cache', cache)\n"
+                   "        if args in cache:\n            return cache[args]\n        res = cache[args] = f(self, *args)\n        return res\n    return wrapper\n")
+    bad = memo_outcomes(ctx, pc)
+    r.positive_control(any(r2 != p2 for what, c1, c2, r1, r2, p1, p2 in bad if what == 'method'), 'memo shared between the methods of an object')
+    return r
+
+
+# ---------------------------------------------------------------------------------------------------------------- SCANBODY
+# one sample per statement shape the dependency regexes name (alternatives of dependency_regex x continuation forms of the from-list), plus the
+# positions a statement can take (first line / later line / indented) and the places where it must NOT be seen (comment, string)
+SCAN_SAMPLES = [
+    # (key, text, cimports, includes, externs)
+    ('cimport', 'cimport a\n', {'a'}, [], []),
+    ('cimport-dotted', 'cimport a.b\n', {'a.b'}, [], []),
+    ('cimport-list', 'cimport a, b.c\n', {'a', 'b.c'}, [], []),
+    ('cimport-list-nospace', 'cimport a,b ,  c\n', {'a', 'b', 'c'}, [], []),
+    ('from-cimport', 'from p cimport x\n', {'p', 'p.x'}, [], []),
+    ('from-cimport-list', 'from p.q cimport x, y\n', {'p.q', 'p.q.x', 'p.q.y'}, [], []),
+    ('from-cimport-paren', 'from p cimport (x, y)\n', {'p', 'p.x', 'p.y'}, [], []),
+    ('from-cimport-comment', 'from p cimport x  # note\n', {'p', 'p.x'}, [], []),
+    ('pure-from-import', 'from cython.cimports.p.q import x\n', {'p.q', 'p.q.x'}, [], []),
+    ('pure-import', 'import cython.cimports.p.q\n', {'p.q'}, [], []),
+    ('extern', 'cdef extern from "h.h":\n    pass\n', set(), [], ['h.h']),
+    ('extern-single-quote', "cdef extern from 'h.h':\n    pass\n", set(), [], ['h.h']),
+    ('include', 'include "i.pxi"\n', set(), ['i.pxi'], []),
+    ('include-single-quote', "include 'i.pxi'\n", set(), ['i.pxi'], []),
+    ('later-line', 'x = 1\ny = 2\ncimport a\n', {'a'}, [], []),
+    ('indented', 'IF X:\n    cimport a\n', {'a'}, [], []),
+    ('tab-separated', 'cimport\ta\n', {'a'}, [], []),
+    ('two-statements', 'cimport a\ninclude "i.pxi"\nfrom p cimport x\ncdef extern from "h.h":\n    pass\ninclude "j.pxi"\n', {'a', 'p', 'p.x'}, ['i.pxi', 'j.pxi'], ['h.h']),
+    ('after-comment-line', '# note\ncimport a\n', {'a'}, [], []),
+    ('after-trailing-comment', 'x = 1  # note\ninclude "i.pxi"\n', set(), ['i.pxi'], []),
+    ('after-comment-ending-in-backslash', 'x = 1  # note \\\ncimport a\n', {'a'}, [], []),
+    ('after-docstring', '"""doc\nstring"""\ncimport a\n', {'a'}, [], []),
+    ('after-string-line', "s = 'text'\ncimport a\n", {'a'}, [], []),
+    ('continued-statement', 'cimport a, \\\n    b\n', {'a', 'b'}, [], []),
+    ('in-comment', '# cimport a\nx = 1  # include "i.pxi"\n', set(), [], []),
+    ('in-string', 's = "cimport a"\nt = """\ninclude "i.pxi"\n"""\n', set(), [], []),
+    ('not-a-statement', 'x = cimport_a\nprint(include)\n', set(), [], []),
+]
+
+
+def scan_component_indices(ctx):
+    """which component of parse_dependencies() its consumers read as cimports / includes / externs"""
+    ms = {}
+    for n in _tree(ctx).body:
+        if isinstance(n, ast.ClassDef) and n.name == 'DependencyTree':
+            ms = {m.name: m for m in n.body if isinstance(m, ast.FunctionDef)}
+    inc = None
+    f = ms.get('included_files')
+    for n in ast.walk(f) if f is not None else ():
+        if isinstance(n, ast.Subscript) and isinstance(n.value, ast.Call) and _call_name(n.value) == 'parse_dependencies' and isinstance(n.slice, ast.Constant):
+            inc = n.slice.value
+    f = ms.get('cimports_externs_incdirs')
+    cim = ext = None
+    if f is not None:
+        unpack = [n for n in ast.walk(f) if isinstance(n, ast.Assign) and isinstance(n.targets[0], ast.Tuple) and
+                  any(isinstance(c, ast.Call) and _call_name(c) == 'parse_dependencies' for c in ast.walk(n.value))]
+        rets = [n.value for n in ast.walk(f) if isinstance(n, ast.Return) and isinstance(n.value, ast.Tuple)]
+        if unpack and rets:
+            names = [e.id if isinstance(e, ast.Name) else None for e in unpack[0].targets[0].elts]
+            lo = 0
+            v = unpack[0].value
+            if isinstance(v, ast.Subscript) and isinstance(v.slice, ast.Slice) and v.slice.lower is not None:
+                lo = tables.literal(v.slice.lower) or 0
+
+            def comp_of(ret_elt):
+                used = {x.id for x in ast.walk(ret_elt) if isinstance(x, ast.Name)}
+                hits = [i for i, nm in enumerate(names) if nm in used]
+                return lo + hits[0] if len(hits) == 1 else None
+            cim = comp_of(rets[0].elts[0]) if len(rets[0].elts) > 0 else None
+            ext = comp_of(rets[0].elts[1]) if len(rets[0].elts) > 1 else None
+    if inc is None or cim is None or ext is None:
+        raise AnalysisError('DependencyTree: how included_files / cimports_externs_incdirs read the components of parse_dependencies() was not understood '
+                            '(includes=%r cimports=%r externs=%r)' % (inc, cim, ext))
+    return cim, inc, ext
+
+
+def scan_results(ctx, samples, tree=None):
+    ev, mod = deps_model(ctx, tree)
+    fn = mod.vars.get('parse_dependencies')
+    if not isinstance(fn, Func):
+        raise AnalysisError('Dependencies.parse_dependencies could not be established by the evaluator%s' % ((' (%s)' % fn.why) if isinstance(fn, Opaque) else ''))
+    out = {}
+    for key, text, *_ in samples:
+        fh = _NS(read=lambda text=text: text)
+        mod.vars['Utils'] = _NS(open_source_file=lambda *a, **k: _NS(__enter__=lambda: fh, __exit__=lambda *a: None))
+        mod.vars['DistutilsInfo'] = lambda *a, **k: 'INFO'
+        try:
+            out[key] = ev.call(fn, ['sample.pyx'])
+        except PyRaise as e:
+            out[key] = e
+    return out
+
+
+def rule_scanbody(ctx):
+    r = Rule('C46-SCANBODY', 'parse_dependencies, evaluated by the checker on one sample per statement shape of its regexes (cimport / list / from-cimport with plain, listed, '
+             'parenthesised and commented names / cython.cimports forms / cdef extern / include; first line, later line, indented, several statements) and on statements '
+             'hidden in comments and strings, returns exactly the cimported module candidates, the include files and the extern headers, in the tuple components its '
+             'consumers (included_files, cimports_externs_incdirs) read them from', floor=22)
+    cim_i, inc_i, ext_i = scan_component_indices(ctx)
+    res = _guard('Dependencies.parse_dependencies', lambda: scan_results(ctx, SCAN_SAMPLES))
+    fn = tables.find_function(_tree(ctx), 'parse_dependencies')
+    reported = set()
+    for key, text, cim, inc, ext in SCAN_SAMPLES:
+        got = res[key]
+        r.inst('scan:' + key, sample='%r -> %r' % (text, got if not isinstance(got, PyRaise) else 'raises %r' % (got.exc,)))
+        if isinstance(got, PyRaise):
+            problem = ('raises', 'raises %r' % (got.exc,))
+        elif not isinstance(got, tuple) or len(got) <= max(cim_i, inc_i, ext_i):
+            problem = ('shape', 'returns %r' % (got,))
+        else:
+            problem = None
+            for what, idx, want, as_set in (('cimports', cim_i, cim, True), ('includes', inc_i, inc, False), ('externs', ext_i, ext, False)):
+                g = got[idx]
+                try:
+                    same = (set(g) == set(want) and (as_set or sorted(g) == sorted(want)))
+                except TypeError:
+                    same = False
+                if not same:
+                    problem = (what, 'component %d (read as the %s by DependencyTree) is %r, the statement%s give%s %s' % (
+                        idx, what, g, 's' if text.count('\n') > 1 else '', '' if text.count('\n') > 1 else 's', sorted(want) if want else 'nothing'))
+                    break
+        if problem and problem[0] not in reported:
+            reported.add(problem[0])
+            r.violate('Dependencies.parse_dependencies:%s' % problem[0], REL, fn.lineno,
+                      'for the source text %r parse_dependencies %s: the dependency set of the module differs from what the compiler reads, so an edited .pxd/.pxi/header does not '
+                      'trigger regeneration (or an unrelated file does)' % (text, problem[1]))
+    pc = ast.parse("import re\ndependency_regex = re.compile(r'^[ \\t]*cimport[ \\t]+([\\w.]+(?:[ \\t]*,[ \\t]*[\\w.]+)*)', re.M)\n"
+                   "def strip_string_literals(s):\n    return s, {}\n"
+                   "def parse_dependencies(f):\n    with Utils.open_source_file(f) as fh:\n        source = fh.read()\n    source, literals = strip_string_literals(source)\n    cimports = []\n"
+                   "    for m in dependency_regex.finditer(source):\n        cimports.extend(x.strip() for x in m.group(1).split())\n    return cimports, [], [], None\n")
+    got = scan_results(ctx, [s_ for s_ in SCAN_SAMPLES if s_[0] in ('cimport', 'cimport-list')], tree=pc)
+    r.positive_control(isinstance(got['cimport'], tuple) and set(got['cimport'][0]) == {'a'} and set(got['cimport-list'][0]) != {'a', 'b.c'}, 'cimport list split on blanks')
+    return r
+
+
+# ---------------------------------------------------------------------------------------------------------------- PXD
+def _tree_instance(ctx, existing, package, tree=None):
+    ev, mod = deps_model(ctx, tree)
+    DT = mod.vars.get('DependencyTree')
+    if DT is None or isinstance(DT, Opaque):
+        raise AnalysisError('Dependencies.DependencyTree could not be established by the evaluator')
+    context = _NS(find_pxd_file=lambda name, pos=None, source_file_path=None, **k: ('PXD:' + name) if name in existing else None)
+    mod.vars['package'] = lambda filename: tuple(package)
+    t = ev.call(DT, [context], {'quiet': True})
+    return ev, mod, t
+
+
+def rule_pxd(ctx):
+    r = Rule('C46-PXD', 'DependencyTree.find_pxd and cimported_files, evaluated by the checker over the complete table (relative level 1-3 x package depth 1-3 x one- and '
+             'two-component names; absolute names with the package-relative and the absolute .pxd present or absent; module names in every relation to the `cython` '
+             'package; every source extension cythonize compiles): a relative cimport resolves like importlib.util.resolve_name, an absolute name that only exists at top '
+             'level is found, every cimported module that resolves is a dependency, and so is the same-named .pxd of every compilable source', floor=60)
+    tree = _tree(ctx)
+    cls = next((n for n in tree.body if isinstance(n, ast.ClassDef) and n.name == 'DependencyTree'), None)
+    if cls is None:
+        raise AnalysisError('DependencyTree vanished')
+    ms = {m.name: m for m in cls.body if isinstance(m, ast.FunctionDef)}
+    for need in ('find_pxd', 'cimported_files'):
+        if need not in ms:
+            raise AnalysisError('DependencyTree.%s vanished' % need)
+    first = set()
+
+    def violate(key, fn, msg):
+        if key not in first:
+            first.add(key)
+            r.violate(key, REL, ms[fn].lineno, msg)
+    # ---- relative names
+    for depth in (1, 2, 3):
+        pkg = ['p%d' % i for i in range(1, depth + 1)]
+        for level in (1, 2, 3):
+            for tail in ('x', 'x.y'):       # the bare forms `from . cimport x` (module name '.') are left to NOT_DECIDED: what the compiler reads for them is the package __init__.pxd
+                module = '.' * level + tail
+                try:
+                    want = _ilu.resolve_name(module, '.'.join(pkg)) if tail else '.'.join(pkg[:len(pkg) - level + 1]) if level <= depth else None
+                except ImportError:
+                    want = None
+                if tail == '' and want is not None and level > depth:
+                    want = None
+                for exists in (True, False):
+                    ikey = 'find_pxd:relative:depth%d:%s:%s' % (depth, module, 'present' if exists else 'absent')
+                    existing = {want} if (exists and want) else set()
+
+                    def run():
+                        ev, mod, t = _tree_instance(ctx, existing, pkg)
+                        return ev.call(ev.getattr(t, 'find_pxd'), [module, '/src/' + '/'.join(pkg) + '/m.pyx'])
+                    try:
+                        got = _guard('DependencyTree.find_pxd', run)
+                    except PyRaise as e:
+                        got = 'raises %r' % (e.exc,)
+                    r.inst(ikey, sample='%r in package %s -> %r' % (module, '.'.join(pkg), got))
+                    exp = ('PXD:' + want) if (exists and want) else None
+                    if got != exp:
+                        violate('Dependencies.DependencyTree.find_pxd:relative', 'find_pxd',
+                                'find_pxd(%r) for a module of package %s (where %s exists) returns %r instead of %r: the relative cimport resolves to %s for the compiler '
+                                '(importlib.util.resolve_name), so the dependency on that .pxd is missed or a wrong file is taken' % (
+                                    module, '.'.join(pkg), sorted(existing) or 'no candidate', got, exp, want or 'nothing (beyond the top-level package)'))
+    # ---- absolute names
+    for depth in (0, 1, 2):
+        pkg = ['p%d' % i for i in range(1, depth + 1)]
+        for module in ('x', 'x.y'):
+            rel = '.'.join(pkg + [module])
+            for has_rel in (False, True):
+                for has_abs in (False, True):
+                    existing = ({rel} if has_rel else set()) | ({module} if has_abs else set())
+
+                    def run():
+                        ev, mod, t = _tree_instance(ctx, existing, pkg)
+                        return ev.call(ev.getattr(t, 'find_pxd'), [module, '/src/' + '/'.join(pkg + ['m.pyx'])])
+                    try:
+                        got = _guard('DependencyTree.find_pxd', run)
+                    except PyRaise as e:
+                        got = 'raises %r' % (e.exc,)
+                    r.inst('find_pxd:absolute:depth%d:%s:%s%s' % (depth, module, 'R' if has_rel else '-', 'A' if has_abs else '-'), sample='%r in package %r with %s -> %r' % (module, '.'.join(pkg), sorted(existing), got))
+                    ok = (got is None) if not existing else (got in {'PXD:' + e for e in existing})
+                    if not ok:
+                        violate('Dependencies.DependencyTree.find_pxd:absolute', 'find_pxd',
+                                'find_pxd(%r) for a module of package %r returns %r although the existing .pxd candidates are %s: `cimport %s` %s' % (
+                                    module, '.'.join(pkg), got, sorted(existing) or 'none', module,
+                                    'is not recorded as a dependency, editing that .pxd does not regenerate the importing module' if existing else 'must not resolve'))
+    # ---- cimported_files
+    sched_exts = compiled_extensions(tree)
+    modules = ['cython', 'cython.view', 'cythonx', 'cythonx.y', 'x', 'x.cython', 'cy', 'libc.math']
+    for found_all in (True, False):
+        for ext in sorted(sched_exts | {'.pxd', '.pxi'}):
+            for own in (True, False):
+                def run():
+                    ev, mod, t = _tree_instance(ctx, set(), ['p'])
+                    t.attrs['cimports'] = lambda filename: tuple(modules)
+                    t.attrs['find_pxd'] = lambda module, filename=None: ('PXD:' + module) if found_all else None
+                    mod.vars['path_exists'] = lambda p: own and p == '/src/p/m.pxd'
+                    return ev.call(ev.getattr(t, 'cimported_files'), ['/src/p/m' + ext])
+                try:
+                    got = _guard('DependencyTree.cimported_files', run)
+                except PyRaise as e:
+                    got = 'raises %r' % (e.exc,)
+                r.inst('cimported_files:%s:%s:%s' % (ext, 'own-pxd' if own else 'no-own-pxd', 'all-found' if found_all else 'none-found'), sample='m%s -> %r' % (ext, got))
+                if not isinstance(got, (tuple, list, set, frozenset)):
+                    violate('Dependencies.DependencyTree.cimported_files:result', 'cimported_files', 'cimported_files(m%s) yields %r' % (ext, got))
+                    continue
+                want = {'PXD:' + m for m in modules if found_all and not (m == 'cython' or m.startswith('cython.'))}
+                missing = sorted(want - set(got))
+                if missing:
+                    violate('Dependencies.DependencyTree.cimported_files:modules', 'cimported_files',
+                            'cimported_files(m%s) for the cimports %s (all of which resolve) lacks %s: those .pxd files are read by the compiler but are no dependencies, editing them does '
+                            'not regenerate the module' % (ext, modules, missing))
+                if own and ext in sched_exts and '/src/p/m.pxd' not in got:
+                    violate('Dependencies.DependencyTree.cimported_files:own-pxd', 'cimported_files',
+                            'cimported_files(m%s) does not contain the existing m.pxd: cythonize compiles %s sources and the compiler reads the same-named .pxd for each of them, so '
+                            'editing m.pxd does not regenerate m%s' % (ext, sorted(sched_exts), ext))
+    pc = ast.parse("class DependencyTree:\n    def __init__(self, context, quiet=False):\n        self.context = context\n    def package(self, filename):\n        return package(filename)\n"
+                   "    def find_pxd(self, module, filename=None):\n        module_path = module.split('.')\n        package_path = list(self.package(filename))\n"
+                   "        while module_path and not module_path[0]:\n            package_path.pop()\n            module_path.pop(0)\n"
+                   "        return self.context.find_pxd_file('.'.join(package_path + module_path), source_file_path=filename)\n")
+    ev2, mod2, t2 = _tree_instance(ctx, {'p1.x'}, ['p1'], tree=pc)
+    r.positive_control(ev2.call(ev2.getattr(t2, 'find_pxd'), ['.x', '/src/p1/m.pyx']) is None, 'relative name climbs one package too far')
+    return r
+
+
+def compiled_extensions(tree):
+    """the source extensions the scheduling loop of cythonize() turns into C files"""
+    fn = tables.find_function(tree, 'cythonize')
+    exts = set()
+    for n in ast.walk(fn):
+        if isinstance(n, ast.Compare) and len(n.ops) == 1 and isinstance(n.ops[0], ast.In) and isinstance(n.left, ast.Name) and n.left.id == 'ext':
+            v = tables.literal(n.comparators[0])
+            if isinstance(v, (tuple, list, set)) and all(isinstance(x, str) for x in v):
+                exts |= set(v)
+    if not exts:
+        raise AnalysisError('cythonize: the test `ext in (...)` that selects the sources to compile was not found')
+    return exts
+
+
+# ---------------------------------------------------------------------------------------------------------------- MARKV
+def marker_outcomes(utils_tree, version='3.9.9'):
+    ev = PyEval(max_steps=100000)
+    exists = [True]
+    content = [b'']
+    os_stub = _NS(path=_NS(exists=lambda p: exists[0], getmtime=lambda p: 0, splitext=_os.path.splitext, isdir=lambda p: False, join=_os.path.join), unlink=lambda p: None)
+    um = ev.load_module('Utils', utils_tree, imports={'re': _RE_STUB, 'os': os_stub, ':__version__': version})
+    marker = um.vars.get('GENERATED_BY_MARKER')
+    fn = um.vars.get('file_generated_by_this_cython')
+    if not isinstance(marker, str) or not isinstance(fn, Func):
+        raise AnalysisError('Utils.GENERATED_BY_MARKER / file_generated_by_this_cython could not be established by the evaluator')
+    if version not in marker:
+        return marker, None
+
+    def opener(path, mode='r', *a, **k):
+        if not exists[0]:
+            raise FileNotFoundError(path)
+        data = content[0]
+        return _NS(__enter__=lambda: _NS(read=lambda n=-1: data if n is None or n < 0 else data[:n]), __exit__=lambda *a: None)
+    um.vars['open'] = opener
+    mb = marker.encode('ascii')
+    other = marker.replace(version, '0.29.1').encode('ascii')
+    cases = [('this-version', True, mb + b'\n\n#include <Python.h>\n', True),
+             ('other-version', True, other + b'\n\n#include <Python.h>\n', False),
+             ('shorter-version-prefix', True, marker.replace(version, version[:-2]).encode('ascii') + b'\n', False),
+             ('truncated-marker', True, mb[:len(mb) // 2], False),
+             ('foreign-file', True, b'/* hand written */\nint x;\n', False),
+             ('empty-file', True, b'', False),
+             ('missing-file', False, b'', False)]
+    out = []
+    for key, ex, data, want in cases:
+        exists[0], content[0] = ex, data
+        try:
+            got = ev.truth(ev.call(fn, ['m.c']))
+        except PyRaise as e:
+            got = 'raises %r' % (e.exc,)
+        out.append((key, data, want, got))
+    return marker, out
+
+
+def rule_marker_value(ctx):
+    r = Rule('C46-MARKV', 'Utils.file_generated_by_this_cython (evaluated by the checker over the classes of file content relative to the marker) is true exactly for a file that '
+             'begins with the complete "Generated by Cython <this version>" marker: C files of another Cython version, truncated, foreign, empty and missing files are regenerated', floor=7)
+    urel = 'Cython/Utils.py'
+    ut = ctx.parse(urel)
+    fn = tables.find_function(ut, 'file_generated_by_this_cython')
+    marker, rows = _guard('Utils.file_generated_by_this_cython', lambda: marker_outcomes(ut))
+    if rows is None:
+        r.inst('marker:version')
+        r.violate('Utils.GENERATED_BY_MARKER:version', urel, fn.lineno, 'GENERATED_BY_MARKER (%r) does not contain the Cython version: C files generated by other versions are never regenerated' % marker)
+        for i in range(6):
+            r.inst('marker:skipped#%d' % i, nontrivial=False)
+        return r
+    for key, data, want, got in rows:
+        r.inst('Utils.file_generated_by_this_cython:' + key, sample='%s (%r...) -> %r' % (key, data[:30], got))
+        if got != want:
+            r.violate('Utils.file_generated_by_this_cython:' + key, urel, fn.lineno,
+                      'for a C file that is %s (content starts %r) file_generated_by_this_cython is %r instead of %r: %s' % (
+                          key.replace('-', ' '), data[:40], got, want,
+                          'cythonize keeps the stale C file of another compiler version / a damaged file instead of regenerating it' if not want else
+                          'every C file counts as foreign and is regenerated on every run'))
+    pc = ast.parse("import os\nfrom . import __version__ as cython_version\nGENERATED_BY_MARKER = '/* Generated by Cython %s */' % cython_version\nGENERATED_BY_MARKER_BYTES = GENERATED_BY_MARKER.encode('us-ascii')\n"
+                   "def file_generated_by_this_cython(path):\n    file_content = b''\n    if os.path.exists(path):\n        with open(path, 'rb') as f:\n            file_content = f.read(22)\n"
+                   "    return file_content and file_content.startswith(GENERATED_BY_MARKER_BYTES[:22])\n")
+    _, rows2 = marker_outcomes(pc)
+    r.positive_control(any(k == 'other-version' and got is True for k, _, _, got in rows2), 'marker compared without its version part')
+    return r
+
+
+# ---------------------------------------------------------------------------------------------------------------- NEWESTV
+def newest_outcomes(ctx, tree=None):
+    """newest_dependency evaluated on a modelled tree  SRC -cimport-> IMM -cimport-> TRANS (-cimport-> SRC, a cycle),  SRC -include-> INC"""
+    out = []
+    for newest in ('SRC', 'IMM', 'INC', 'TRANS'):
+        for cyclic in (False, True):
+            ev, mod, t = _tree_instance(ctx, set(), ['p'], tree)
+            times = {f: 1 + i for i, f in enumerate(('SRC', 'IMM', 'INC', 'TRANS'))}
+            times[newest] = 9
+            cim = {'SRC': ('IMM',), 'IMM': ('TRANS',), 'TRANS': ('SRC',) if cyclic else ()}
+            t.attrs['cimported_files'] = lambda f: cim.get(f, ())
+            t.attrs['included_files'] = lambda f: {'INC'} if f == 'SRC' else set()
+            t.attrs['timestamp'] = lambda f: times[f]
+            try:
+                got = ev.call(ev.getattr(t, 'newest_dependency'), ['SRC'])
+            except PyRaise as e:
+                got = 'raises %r' % (e.exc,)
+            out.append((newest, cyclic, got, (9, newest)))
+    return out
+
+
+def rule_newest_value(ctx):
+    r = Rule('C46-NEWESTV', 'newest_dependency(source), evaluated by the checker on a modelled tree (source, an immediate cimport, an include, a file reached only transitively; with '
+             'and without a cimport cycle back to the source) returns (time, file) of whichever of them is newest', floor=8)
+    fn = None
+    for n in _tree(ctx).body:
+        if isinstance(n, ast.ClassDef) and n.name == 'DependencyTree':
+            fn = next((m for m in n.body if isinstance(m, ast.FunctionDef) and m.name == 'newest_dependency'), None)
+    if fn is None:
+        raise AnalysisError('DependencyTree.newest_dependency vanished')
+    rows = _guard('DependencyTree.newest_dependency', lambda: newest_outcomes(ctx))
+    done = set()
+    for newest, cyclic, got, want in rows:
+        key = 'Dependencies.DependencyTree.newest_dependency:newest=%s%s' % (newest, ':cycle' if cyclic else '')
+        r.inst(key, sample='newest file %s%s -> %r' % (newest, ' (cyclic cimports)' if cyclic else '', got))
+        ok = isinstance(got, (tuple, list)) and len(got) == 2 and tuple(got) == want
+        if not ok and newest not in done:
+            done.add(newest)
+            r.violate('Dependencies.DependencyTree.newest_dependency:newest=%s' % newest, REL, fn.lineno,
+                      'with the %s newer than everything else%s newest_dependency(source) yields %r instead of %r: the rebuild decision does not see that file, an edit to it does not '
+                      'regenerate the module' % ({'SRC': 'source itself', 'IMM': 'directly cimported .pxd', 'INC': 'included file', 'TRANS': 'transitively cimported .pxd'}[newest],
+                                                 ' (cimport cycle back to the source)' if cyclic else '', got, want))
+    pc = ast.parse("class DependencyTree:\n    def __init__(self, context, quiet=False):\n        self.context = context\n"
+                   "    def immediate_dependencies(self, f):\n        d = {f}\n        d.update(self.cimported_files(f))\n        d.update(self.included_files(f))\n        return d\n"
+                   "    def newest_dependency(self, f):\n        return max([(self.timestamp(x), x) for x in self.immediate_dependencies(f)])\n")
+    rows2 = newest_outcomes(ctx, pc)
+    r.positive_control(any(n == 'TRANS' and tuple(g) != w for n, c, g, w in rows2) and all(tuple(g) == w for n, c, g, w in rows2 if n != 'TRANS'), 'maximum over the immediate dependencies only')
     return r
